@@ -188,6 +188,10 @@ def _nan_grouped_op(group_idx, array, func, fillna, *args, **kwargs):
     if fillna in (np.inf, -np.inf):
         allnangroups = result == fillna
         if allnangroups.any():
+            # +-inf is valid data: a group is all-NaN only if it has no valid member
+            size = kwargs.get("size", None)
+            counts = nanlen(group_idx, array, axis=kwargs.get("axis", -1), size=size, fill_value=0)
+            allnangroups &= counts == 0
             result[allnangroups] = kwargs["fill_value"]
     return result
 
